@@ -186,8 +186,10 @@ func (m *Machine) callFn(fn *ssa.Function, args []Value, env []Value, site ssa.I
 	}
 	g := m.cur
 	g.depth++
-	if g.depth > 400 {
-		m.unsupported("call depth exceeded in %s", name)
+	if g.depth > 1000 {
+		// unbounded recursion: natively the program dies with a stack overflow
+		g.depth = 0
+		panic(goPanic{msg: "fatal error: stack overflow (call depth exceeded in " + name + ")"})
 	}
 	m.runFrame(fr)
 	g.depth--
